@@ -33,6 +33,8 @@ fixed(["C12"], "later-valid-request-unanswered:*:number-400-digit-integer-*", "f
       "a number sent as hundreds of digits without exponent was stored as an arbitrary-size int; every later rendering of the vector raised OverflowError (pointed out by a seeding sub-agent's report on the unmodified code, reproduced by C12 after the catalogue got 400-digit numbers)")
 fixed(["C12"], "later-valid-request-unanswered:*:number-306-digit-integer-to-sexagesimal-format", "fix: sexagesimal rendering of integers whose scaled magnitude",
       "an int of 304-309 digits fits a float and is accepted, but int x unit count is an int beyond the float range: num_to_str raised OverflowError on every rendering in a sexagesimal format (pointed out in a seeding sub-agent's notes on the unmodified code; reproduced by C12, then repaired)")
+fixed(["C09"], "published:more-than-one-on:*:hardware-selector-moved:*", "fix: a switch vector lets all Read handlers run before it renders",
+      "switches refreshed by a Read handler (reset_value): when the selection had moved on the hardware, the next setSwitchVector / defSwitchVector showed the old and the new switch On, because elements are rendered one by one while the rule changes their siblings (pointed out in a seeding sub-agent's notes on the unmodified code; reproduced by C09's hardware-selector scenario, then repaired)")
 known("C08", "payload-longer-than-threshold-on-threshold-enabled-link",
       "a BLOB message longer than the 2048-character junk threshold is discarded as junk by a framing buffer whose threshold is enabled "
       "(every client->driver upload on the server side; driver->client on a connection that asked for enableBLOB Also without for_blobs) "
